@@ -17,9 +17,9 @@ open Vita.IntE Vita.C02
 
 /-- the integer variables an extracted expression may mention -/
 structure Vars where
-  rows : Int := 0     -- 0: size() of the individual (`i_sup`, `i_size`)
-  patch : Int := 0    -- 1: env.mep.patch_length
-  cats : Int := 0     -- 2: categories() (`c_sup`)
+  rows : Int := 0     -- 0: size() of the INDIVIDUAL (`i_sup`, `i_size`) – its own geometry
+  patch : Int := 0    -- 1: env.mep.patch_length of the problem handed to the operator
+  cats : Int := 0     -- 2: categories() of the INDIVIDUAL (`c_sup`)
   i : Int := 0        -- 3: row of the cell being written (row loop variable / iterator locus)
   c : Int := 0        -- 4: its column
   d0 : Int := 0       -- 5: first integer drawn in the block (one point: cut; two points: cut1)
@@ -28,11 +28,13 @@ structure Vars where
   p1 : Int := 0       -- 8: second integer parameter (gene(s, from, sup): sup)
   n : Int := 0        -- 9: team: number of members
   k : Int := 0        -- 10: team: member index
+  codeLen : Int := 0  -- 11: env.mep.code_length of the problem handed to the operator
+  ssCats : Int := 0   -- 12: sset.categories() of the problem handed to the operator
 
 def Vars.env (x : Vars) : Env :=
   { v := fun j => match j with
       | 0 => x.rows | 1 => x.patch | 2 => x.cats | 3 => x.i | 4 => x.c | 5 => x.d0 | 6 => x.d1
-      | 7 => x.p0 | 8 => x.p1 | 9 => x.n | 10 => x.k | _ => 0
+      | 7 => x.p0 | 8 => x.p1 | 9 => x.n | 10 => x.k | 11 => x.codeLen | 12 => x.ssCats | _ => 0
     a := fun _ => 0 }
 
 def isVar : E → Nat → Bool
@@ -131,6 +133,12 @@ def Src.drawOK (ss : SymSet) (ρ : Env) (d : GDraw) : Src → Prop
   | .copy _ _ => True
   | .cond c a b => if evalZ ρ c ≠ 0 then a.drawOK ss ρ d else b.drawOK ss ρ d
 
+/-- the `[from, sup)` handed to `gene(symbol, from, sup)` by the source that is selected -/
+def Src.range (ρ : Env) : Src → Option (Int × Int)
+  | .roulette _ lo sup => some (evalZ ρ lo, evalZ ρ sup)
+  | .cond c a b => if evalZ ρ c ≠ 0 then a.range ρ else b.range ρ
+  | _ => none
+
 /-- the genome after a list of writes (program order: a later write wins) at cell `(i, c)` -/
 def denote (ss : SymSet) (mk : Nat → Nat → Env) (frm : Ind) (d : Nat → Nat → GDraw)
     (coin : Nat → Nat → Bool) (ws : List Write) (base : Nat → Nat → Gene) (i c : Nat) : Gene :=
@@ -152,10 +160,12 @@ def Draw.ok (ρ : Env) (dr : Draw) (v : Int) : Prop :=
 def Draw.callable (ρ : Env) (dr : Draw) : Prop :=
   (match dr.cond with | some c => evalZ ρ c ≠ 0 | none => True) → evalZ ρ dr.lo < evalZ ρ dr.sup
 
-/-- every intermediate value of an unsigned computation is a natural number (no wrap-around) -/
+/-- every intermediate value of an unsigned computation is a natural number (no wrap-around);
+    of a conditional only the branch that is evaluated counts -/
 def nowrap (ρ : Env) : E → Prop
   | .bin op _ a b => nowrap ρ a ∧ nowrap ρ b ∧ 0 ≤ binZ op (evalZ ρ a) (evalZ ρ b)
   | .cmp _ a b => nowrap ρ a ∧ nowrap ρ b
+  | .ite c a b => nowrap ρ c ∧ (if evalZ ρ c ≠ 0 then nowrap ρ a else nowrap ρ b)
   | .lit n => 0 ≤ n
   | .var _ => True
   | _ => False
@@ -166,7 +176,7 @@ def Src.nowrap (ρ : Env) : Src → Prop
   | .roulette cat lo sup => GenSem.nowrap ρ cat ∧ GenSem.nowrap ρ lo ∧ GenSem.nowrap ρ sup
   | .terminal cat => GenSem.nowrap ρ cat
   | .copy r c => GenSem.nowrap ρ r ∧ GenSem.nowrap ρ c
-  | .cond c a b => GenSem.nowrap ρ c ∧ a.nowrap ρ ∧ b.nowrap ρ
+  | .cond c a b => GenSem.nowrap ρ c ∧ (if evalZ ρ c ≠ 0 then a.nowrap ρ else b.nowrap ρ)
 
 def Write.nowrap (ρ : Env) (w : Write) : Prop :=
   (match w.rows with | some r => r.nowrap ρ | none => True) ∧
@@ -177,5 +187,187 @@ def Draw.nowrap (ρ : Env) (dr : Draw) : Prop :=
   (match dr.cond with | some c => GenSem.nowrap ρ c | none => True) ∧
   GenSem.nowrap ρ dr.lo ∧ GenSem.nowrap ρ dr.sup ∧
   (match dr.other with | some o => GenSem.nowrap ρ o | none => True)
+
+/-! ## `sum_container::roulette` (symbol_set.cc): the wedge loop
+
+  `const auto slot(random::sup(sum())); std::size_t i(0);`
+  `for (auto wedge(elems_[i].weight); wedge <= slot; wedge += elems_[++i].weight) {}`
+  `return *elems_[i].sym;`
+
+  The translator extracts the loop as a tiny program over the state (index, accumulator): initial
+  values, the test, the assignments of one iteration IN EVALUATION ORDER (`wedge += elems_[++i].weight`
+  is `idx := idx + 1; acc := acc + weight[idx]`), the index returned.  Reading `elems_[k]` with `k`
+  past the end of the container has no value (`none`): the loop "ran past the container". -/
+
+/-- integer expressions over the state of the wedge loop -/
+inductive WE
+  | lit (n : Nat)
+  | idx                 -- the index variable
+  | acc                 -- the accumulator (`wedge`)
+  | slot                -- the drawn slot
+  | wt (e : WE)         -- `elems_[e].weight`
+  | add (a b : WE)
+deriving Repr
+
+inductive WVar | idx | acc
+deriving DecidableEq, Repr
+
+structure WedgeLoop where
+  slotSup : String              -- argument of `random::sup` that yields the slot
+  idx0 : WE                     -- initial index
+  acc0 : WE                     -- initial accumulator (may read the index)
+  cmp : CmpOp                   -- the loop continues while `lhs cmp rhs`
+  lhs : WE
+  rhs : WE
+  step : List (WVar × WE)       -- assignments of one iteration, in evaluation order
+  ret : WE                      -- index of the element returned
+
+structure WState where
+  idx : Nat
+  acc : Nat
+
+def WE.eval (ws : List Nat) (slot : Nat) (s : WState) : WE → Option Nat
+  | .lit n => some n
+  | .idx => some s.idx
+  | .acc => some s.acc
+  | .slot => some slot
+  | .wt e => (e.eval ws slot s).bind (fun k => ws[k]?)
+  | .add a b => (a.eval ws slot s).bind (fun u => (b.eval ws slot s).map (fun v => u + v))
+
+def WState.set (s : WState) : WVar → Nat → WState
+  | .idx, v => { s with idx := v }
+  | .acc, v => { s with acc := v }
+
+def wstep (ws : List Nat) (slot : Nat) : List (WVar × WE) → WState → Option WState
+  | [], s => some s
+  | (v, e) :: rest, s => (e.eval ws slot s).bind (fun n => wstep ws slot rest (s.set v n))
+
+/-- at most `fuel` evaluations of the test -/
+def WedgeLoop.iter (w : WedgeLoop) (ws : List Nat) (slot : Nat) : Nat → WState → Option Nat
+  | 0, _ => none
+  | f + 1, s =>
+    match w.lhs.eval ws slot s, w.rhs.eval ws slot s with
+    | some a, some b =>
+      if cmpZ w.cmp (a : Int) (b : Int) then (wstep ws slot w.step s).bind (w.iter ws slot f)
+      else w.ret.eval ws slot s
+    | _, _ => none
+
+/-- the index the loop returns on a container with weights `ws` (`none`: it left the container) -/
+def WedgeLoop.run (w : WedgeLoop) (ws : List Nat) (slot : Nat) : Option Nat :=
+  (w.idx0.eval ws slot ⟨0, 0⟩).bind (fun i0 =>
+    (w.acc0.eval ws slot ⟨i0, 0⟩).bind (fun a0 => w.iter ws slot (ws.length + 1) ⟨i0, a0⟩))
+
+/-- `elems_[run].sym` -/
+def WedgeLoop.pick (w : WedgeLoop) (l : List Sym) (slot : Nat) : Option Sym :=
+  (w.run (l.map (·.weight)) slot).bind (fun i => l[i]?)
+
+/-! ## `symbol_set::roulette(c)` / `roulette_terminal(c)`: which view of category `c` is asked -/
+
+/-- the views `symbol_set::insert` maintains per category (`views_[c].<name>`) -/
+def view (ss : SymSet) (c : Nat) (name : String) : List Sym :=
+  if name = "functions" then ss.functions c
+  else if name = "terminals" then ss.terminals c
+  else if name = "all" then ss.syms.filter (fun s => s.cat == c)
+  else []
+
+/-- `if (random::boolean() && views_[c].<guard>.size()) return views_[c].<thenV>.roulette();`
+    `return views_[c].<elseV>.roulette();` -/
+structure Sel where
+  coin : Bool               -- the guard starts with `random::boolean()`
+  guardView : String        -- the view whose `size()` is tested
+  thenView : String
+  elseView : String
+
+def Sel.useThen (sel : Sel) (ss : SymSet) (c : Nat) (d : GDraw) : Bool :=
+  (!sel.coin || d.b) && !(view ss c sel.guardView).isEmpty
+
+def Sel.run (sel : Sel) (w : WedgeLoop) (ss : SymSet) (c : Nat) (d : GDraw) : Option Sym :=
+  if sel.useThen ss c d then w.pick (view ss c sel.thenView) d.slotF
+  else w.pick (view ss c sel.elseView) d.slotT
+
+/-! ## `locus::operator<` and `random_locus` (the exon walk over a `std::set<locus>`) -/
+
+/-- variables of the extracted `operator<(l1, l2)`: 0 `l1.index`, 1 `l1.category`, 2 `l2.index`,
+    3 `l2.category` -/
+def lessEnv (a b : Locus) : Env :=
+  { v := fun j => match j with
+      | 0 => a.idx | 1 => a.cat | 2 => b.idx | 3 => b.cat | _ => 0
+    a := fun _ => 0 }
+
+def lessBy (less : E) (a b : Locus) : Bool := evalZ (lessEnv a b) less != 0
+
+/-- the least element of a list w.r.t. `less` -/
+def minL (less : Locus → Locus → Bool) : List Locus → Option Locus
+  | [] => none
+  | l :: t =>
+    match minL less t with
+    | none => some l
+    | some m => if less m l then some m else some l
+
+/-- `++iter` on an ordered set holding the elements of `S`: the least element after `cur`
+    (`none` = `end()`) -/
+def nextIn (less : Locus → Locus → Bool) (S : List Locus) (cur : Locus) : Option Locus :=
+  minL less (S.filter (fun l => less cur l))
+
+/-- `do { exons.insert(args of *iter) } while (++iter != exons.end())` on an ordered set: elements
+    inserted BEFORE the cursor are never visited, those inserted after it are (in order) -/
+def walkFrom (less : Locus → Locus → Bool) (x : Ind) : Nat → List Locus → Locus → List Locus
+  | 0, S, _ => S
+  | f + 1, S, cur =>
+    match nextIn less (S ++ (x.gene cur.idx cur.cat).argLoci) cur with
+    | none => S ++ (x.gene cur.idx cur.cat).argLoci
+    | some n => walkFrom less x f (S ++ (x.gene cur.idx cur.cat).argLoci) n
+
+/-- the shape of `random_locus(prg)` as read off the AST -/
+structure Walk where
+  container : String     -- type of the work set
+  init : String          -- its initial content
+  cursor : String        -- where the iteration starts
+  expand : String        -- what one iteration inserts
+  advance : String       -- how the loop advances / ends
+  result : String        -- what is returned
+
+def Walk.known (w : Walk) : Bool :=
+  w.container == "std::set<locus>" && w.init == "{prg.best()}" && w.cursor == "begin()" &&
+  w.expand == "insert:prg[*iter].arguments()" && w.advance == "do-while:++iter!=end()" &&
+  w.result == "random::element(set)"
+
+/-- the set `random_locus` draws from (`[]` when the shape is not the known one) -/
+def Walk.run (w : Walk) (less : E) (x : Ind) : List Locus :=
+  if w.known then walkFrom (lessBy less) x (x.rows * x.cols) [x.best] x.best else []
+
+/-! ## `i_mep::basic_iterator`: what `for (i = begin(); i != end(); ++i)` scans
+
+  `loci_` (a `std::set<locus>`) is the FRONTIER: it starts as `{best()}`; `*it` is the gene at its least
+  element; `++it` removes that element and inserts its arguments (`erase(begin())` for a terminal,
+  `extract(begin())`-re-key-`insert` + `insert(rest)` otherwise: the same set); `it == end()` iff the
+  frontier is empty. -/
+
+structure Frontier where
+  container : String
+  init : String
+  sentinel : String
+  deref : String
+  advance : String
+  atEnd : String
+  beginEnd : String
+
+def Frontier.known (w : Frontier) : Bool :=
+  w.container == "std::set<locus>" && w.init == "{id.best()}" && w.sentinel == "loci_()" &&
+  w.deref == "ind_->genome_(*loci_.cbegin())" &&
+  w.advance == "if(!empty){args:=(**this).arguments();empty?erase(begin()):replace(begin(),args.front())+insert(rest)}" &&
+  w.atEnd == "both-empty||same-cbegin" && w.beginEnd == "begin():iterator(*this);end():iterator()"
+
+/-- the loci visited, in order (`F` = the frontier, `acc` = visited so far) -/
+def frontierFrom (less : Locus → Locus → Bool) (x : Ind) : Nat → List Locus → List Locus → List Locus
+  | 0, _, acc => acc
+  | f + 1, F, acc =>
+    match minL less F with
+    | none => acc
+    | some m =>
+      frontierFrom less x f (F.filter (fun l => l != m) ++ (x.gene m.idx m.cat).argLoci) (acc ++ [m])
+
+def Frontier.run (w : Frontier) (less : E) (x : Ind) : List Locus :=
+  if w.known then frontierFrom (lessBy less) x (x.rows * x.cols) [x.best] [] else []
 
 end Vita.C02.GenSem
